@@ -104,17 +104,26 @@ class ValCheck(checks_net.NetCheck):
         r = seeds.rng(seed, self.pid, "case", i)
         recipe = self.gen_recipe(r)
         opts, _ = self.gen_options(r)
+        if recipe.get("note") == "striped_tables" and r.random() < 0.6 and "--accelerator-config" in opts:
+            # 16-bank configurations: the table area doubles as working memory of operations without a table
+            opts[opts.index("--accelerator-config") + 1] = r.choice(["ethos-u55-32", "ethos-u55-64"])
+            for k_ in ("--system-config", "--memory-mode", "--config"):
+                if k_ in opts:
+                    j_ = opts.index(k_)
+                    del opts[j_:j_ + 2]
         return dict(recipe=recipe, opts=opts, seed=seeds.derive(seed, self.pid, "inputs", i), n_inputs=self.n_inputs[tier], tags=self.with_tags)
 
     with_tags = False
 
     def gen_recipe(self, r):
-        if r.random() < 0.1:
+        if r.random() < 0.12:
             # tall feature maps through convolutions and table activations: cascades whose operators run as several stripes
             cfg = netgen.swarm_config(r, "stripes")
             cfg["fams"] = ["conv", "dw", "lut", "lut", "pool", "act"]
             cfg["size"] = "tall"
-            return netgen.gen_recipe(r, cfg)
+            rec = netgen.gen_recipe(r, cfg)
+            rec["note"] = "striped_tables"
+            return rec
         cfg = netgen.swarm_config(r, "value")
         cfg["fams"] = [f for f in cfg["fams"] if f not in ("cpu",)] or ["conv"]
         if r.random() < 0.85:
